@@ -3,7 +3,7 @@ From Coq Require Export List Arith ZArith Lia Bool Permutation.
 Export ListNotations.
 
 Inductive exn := OutOfRange | InvalidArgument | RuntimeError | StdOutOfRange | StoiInvalid | StoiRange.
-Inductive ubkind := IndexOOB | DerefEnd | HeapPrecondition | StaleRead.
+Inductive ubkind := IndexOOB | DerefEnd | HeapPrecondition | StaleRead | Fuel.
 (* result of a mutator (the state at exit is returned beside it) *)
 Inductive res := Done | Thrown (e : exn) | UBk (k : ubkind).
 (* result of an observer *)
@@ -77,3 +77,21 @@ Proof. induction m as [|[k' v] m IH]; simpl; [destruct (edge_eqb e k); auto|].
 Lemma lfind_lset e l k m : lfind k (lset e l m) = if edge_eqb e k then Some l else lfind k m.
 Proof. unfold lset; simpl. destruct (edge_eqb_spec e k); auto. rewrite lfind_lerase. destruct (edge_eqb_spec e k); [congruence|auto]. Qed.
 End LMap.
+
+(* ---- outcome plumbing and the integer encoding of observations (what the correspondence check compares) ---- *)
+Definition obind {A B} (o : outcome A) (f : A -> outcome B) : outcome B :=
+  match o with Val a => f a | Raise e => Raise e | Undef k => Undef k end.
+Definition omap {A B} (f : A -> B) (o : outcome A) : outcome B := obind o (fun a => Val (f a)).
+Fixpoint omapM {A B} (f : A -> outcome B) (l : list A) : outcome (list B) :=
+  match l with [] => Val [] | x :: t => obind (f x) (fun y => obind (omapM f t) (fun ys => Val (y :: ys))) end.
+Definition zexn (e : exn) : Z :=
+  match e with OutOfRange => -101 | InvalidArgument => -102 | RuntimeError => -103 | StdOutOfRange => -104 | StoiInvalid => -105 | StoiRange => -106 end%Z.
+Definition zub : Z := (-199)%Z.
+Definition zres (r : res) : Z := match r with Done => 0%Z | Thrown e => zexn e | UBk _ => zub end.
+Definition zout {A} (f : A -> Z) (o : outcome A) : Z := match o with Val a => f a | Raise e => zexn e | Undef _ => zub end.
+Definition zbool (b : bool) : Z := if b then 1%Z else 0%Z.
+(* a vector-valued observer: its n entries, or n copies of the error code *)
+Definition zvec {A} (f : A -> Z) (n : nat) (o : outcome (list A)) : list Z :=
+  match o with Val l => map f l | Raise e => repeat (zexn e) n | Undef _ => repeat zub n end.
+Definition count (x : nat) (l : list nat) : nat := length (filter (Nat.eqb x) l).
+Definition pairs (n : nat) : list edge := flat_map (fun i => map (pair i) (seq 0 n)) (seq 0 n).
